@@ -534,6 +534,9 @@ def usage_obligations(fnode):
     if fnode.name != "sympy_simplify":
         return out
     found0 = found1 = zoo = False
+    t1_, t2_ = extract(fnode)
+    if not t1_ or not any(isinstance(n, ast.Subscript) and ast.unparse(n) == "expr[1]" for n in ast.walk(fnode)):
+        return out           # the names this analysis is keyed on are not the code's names: nothing is known (the rows are reported as unsupported)
     for n in ast.walk(fnode):
         if isinstance(n, ast.If) and isinstance(n.test, ast.Compare) and len(n.test.ops) == 1 and isinstance(n.test.ops[0], ast.Eq) and \
                 ast.unparse(n.test.left) == "expr[1]" and isinstance(n.test.comparators[0], ast.Constant):
